@@ -184,7 +184,11 @@ func (ci *ChunkInfo) updateQueue(ctx context.Context, authInfo []byte, rootCid, 
 		return
 	}
 	for over := range chunkInfo {
-		o := boson.MustParseHexAddress(over)
+		o, err := boson.ParseHexAddress(over)
+		if err != nil {
+			// keys of the presence map come from the peer
+			continue
+		}
 		n := o.Bytes()
 		if o.Equal(ci.addr) {
 			continue
